@@ -27,7 +27,8 @@ ASSUMPTIONS = [
 ]
 
 
-HANG_S = 30   # harness alarm for a call that does not come back (a verdict only if nothing is left to wait for)
+HANGS = {'n': 0}
+HANG_S = 20   # period of the harness alarm for a call that does not come back (see on_alarm)
 
 
 def elems_for(n, none_at=None):
@@ -54,8 +55,27 @@ def _call(case):
     import asyncio
     import signal
 
+    if HANGS['n'] >= 2 and case.get('raising') and case['threads'] > 1 and case.get('exc', 'Boom') == HANGS.get('exc'):
+        # this shard has already waited out two calls that never came back for this kind of case (each costs two alarm
+        # periods): the finding is recorded, further ones are not waited for
+        raise hyp.Inconclusive('skipped: calls of this kind did not return twice before in this shard')
+    watch = {'ticks': 0, 'idle_at': None, 'verdict': None}
+
     def on_alarm(signum, frame):
-        raise Hang()
+        # a verdict needs TWO consecutive ticks (HANG_S apart) at which every started call of f had finished, nothing was
+        # in flight and no further call was started in between; a busy or slow machine only ever gives "inconclusive"
+        watch['ticks'] += 1
+        with ctl.cv:
+            idle = not ctl.inflight and ctl.finished_calls == len(ctl.calls)
+            n_calls = len(ctl.calls)
+        if idle and watch['idle_at'] == n_calls:
+            watch['verdict'] = 'idle'
+            raise Hang()
+        if watch['ticks'] >= 8:
+            watch['verdict'] = 'busy'
+            raise Hang()
+        watch['idle_at'] = n_calls if idle else None
+        signal.alarm(HANG_S)
 
     old_handler = signal.signal(signal.SIGALRM, on_alarm)
     signal.alarm(HANG_S)
@@ -97,13 +117,14 @@ def _call(case):
             signal.alarm(0)
             signal.signal(signal.SIGALRM, old_handler)
     if isinstance(error, Hang):
-        with ctl.cv:
-            idle = not ctl.inflight and ctl.finished_calls == len(ctl.calls)
-        if idle and not ctl.stuck:
+        HANGS['n'] += 1
+        HANGS['exc'] = case.get('exc', 'Boom')
+        if watch['verdict'] == 'idle' and not ctl.stuck:
             # every call of f that was started has returned or raised long ago and nothing is in flight: there is
             # nothing left to wait for, yet the function has not come back
             raise Violation('did-not-return-although-every-call-of-f-finished',
-                            {'case': case, 'calls': ctl.calls, 'completions': ctl.completions, 'waited_s': HANG_S})
+                            {'case': case, 'calls': ctl.calls, 'completions': ctl.completions,
+                             'idle_for_s': HANG_S, 'waited_s': HANG_S * watch['ticks']})
         raise hyp.Inconclusive('parallel_map did not return within the harness alarm')
     ctl.check_not_stuck()
     return xs, ctl, result, error
